@@ -349,7 +349,10 @@ check('C09',
       'scheduled ones. What decides the property for the real library is the correspondence run: every public operation on a NumPy-backed '
       'signal and on the same signal backed by a Dask array with random chunk layouts, computed under the synchronous, threaded and '
       'multiprocess schedulers - same type, metadata, shape, dtype, values - with the result still Dask-backed and a sentinel layer under '
-      'the input proving that no input block was computed while the result graph was built.',
+      'the input proving that no input block was computed while the result graph was built. The statements the chunk model stands for '
+      '(the signal_transform wrapper = da.map_blocks of the same function; compute / persist / to_dask_array / rechunk = like(self, same '
+      'data in another container)) are pinned as syntax trees re-read on every run by T15 (C09_generated_glue); the Dask branches of '
+      'time_shift / freq_shift, the chirp, the readers and pb.fft are pinned by T6, T5, T13, T2.',
       'Trusted / not modelled: dask graph construction, optimisation and schedulers; thread safety of the NumPy / SciPy kernels; the '
       'theorems say why chunking CAN be transparent for a column-separable operation, not that dask implements it.',
       'machine-checked proof in Coq of the chunk / schedule model + decisive NumPy-vs-Dask correspondence run with laziness sentinel',
